@@ -11,7 +11,7 @@
 (* Each case names the judgements (`kinds`) to evaluate; the verdict of    *)
 (* each is computed here, by TLC, and printed; the driver only counts.     *)
 (***************************************************************************)
-EXTENDS BoolNet, Hctl, Syntax, Json, IOUtils
+EXTENDS BoolNet, Scope, Json, IOUtils
 
 Doc == JsonDeserialize(IOEnv.CASEFILE)
 N0  == Doc.net
@@ -59,6 +59,19 @@ JEqual(case) ==
             (Ok(b) /\ a.ids[i] = b.ids[j]) =>
                 (Res(a, i) = Res(b, j) /\ a.aux[i] = b.aux[j])
 
+(* rewrite: the calls of the case evaluate TEXTS that are supposed to be meaning-preserving      *)
+(* rewrites of one formula (renaming, blanks, redundant or omitted parentheses, spellings).      *)
+(* The specification first decides that they are: every text must parse, by the documented      *)
+(* grammar, to a tree alpha-equivalent to the first one -- otherwise the case is not an instance *)
+(* of C08 ("NA", a generator problem, never a violation).  Then the results must be equal.       *)
+SameFormula(case) ==
+  LET t1 == ParseChars(case.calls[1].fchars[1], case.calls[1].api \in {"ext", "ext_dirty", "multi_ext", "multi_ext_dirty"}) IN
+    /\ IsOk(t1)
+    /\ \A ci \in 1..Len(case.calls) :
+         LET t == ParseChars(case.calls[ci].fchars[1], case.calls[ci].api \in {"ext", "ext_dirty", "multi_ext", "multi_ext_dirty"}) IN
+           IsOk(t) /\ WellScoped(t, {}) /\ AlphaEq(t, t1)
+JRewrite(case) == IF SameFormula(case) THEN (IF JEqual(case) THEN "T" ELSE "F") ELSE "NA"
+
 (* canon: sanitised results use the canonical encoding and are compatible with a plain graph (C15) *)
 JCanon(case) ==
   \A ci \in 1..Len(case.calls) :
@@ -75,14 +88,15 @@ JUnsafe(case) ==
 
 (* slice: calls[1] on the parametrised network, calls[j>1] on the network instantiated by       *)
 (* colour calls[j].colour; for valid colours slice = instantiated result = Sat in that colour   *)
-(* (C20).                                                                                       *)
+(* (C20).  Context sets of an extended formula are DEFINED by closed plain formulae, evaluated   *)
+(* on the respective network; the reference uses the recorded sets of the parametrised call.     *)
 JSlice(case) ==
   LET a == case.calls[1] IN
     /\ Ok(a)
     /\ \A j \in 2..Len(case.calls) :
          LET b == case.calls[j] c == b.colour IN
            c \in Valid0 =>
-             LET ref == Sat(K0[c], S0, P0, [l \in {} |-> {}], a.asts[1], <<>>) IN
+             LET ref == Sat(K0[c], S0, P0, CtxOf(a)[c], a.asts[1], <<>>) IN
                /\ Ok(b)
                /\ Slice(Res(a, 1), c) = ref
                /\ ToSet(b.res[1]) = ref
@@ -120,13 +134,26 @@ JApiStr(case) ==
       /\ (call.outcome = "err") <=> ShouldErrStr(call)
 
 B2S(b) == IF b THEN "T" ELSE "F"
+(* The semantic properties quantify over closed, well-formed formulae whose labels have context  *)
+(* sets and whose nesting depth the graph supports.  A case whose generator-side trees are not   *)
+(* of that kind is outside every such property: "NA" (reported, never a violation).             *)
+InScope(case) ==
+  \A ci \in 1..Len(case.calls) :
+    LET call == case.calls[ci] IN
+      \A i \in 1..Len(call.asts) :
+        LET f == call.asts[i] IN
+          /\ WellScoped(f, {}) /\ Props(f) \subseteq VarNames0
+          /\ Labels(f) \subseteq (IF "ctx_sets" \in DOMAIN call THEN DOMAIN call.ctx_sets ELSE DOMAIN call.ctx)
+          /\ Depth(f) <= call.k
+Guard(case, v) == IF InScope(case) THEN v ELSE "NA"
 Judge(case, kind) ==
-  CASE kind = "denote" -> B2S(JDenote(case))
-    [] kind = "unit"   -> B2S(JUnit(case))
-    [] kind = "equal"  -> B2S(JEqual(case))
-    [] kind = "canon"  -> B2S(JCanon(case))
-    [] kind = "unsafe" -> JUnsafe(case)
-    [] kind = "slice"  -> B2S(JSlice(case))
+  CASE kind = "denote" -> Guard(case, B2S(JDenote(case)))
+    [] kind = "unit"   -> Guard(case, B2S(JUnit(case)))
+    [] kind = "equal"  -> Guard(case, B2S(JEqual(case)))
+    [] kind = "canon"  -> Guard(case, B2S(JCanon(case)))
+    [] kind = "rewrite" -> Guard(case, JRewrite(case))
+    [] kind = "unsafe" -> Guard(case, JUnsafe(case))
+    [] kind = "slice"  -> Guard(case, B2S(JSlice(case)))
     [] kind = "api"    -> B2S(JApi(case))
     [] kind = "apistr" -> B2S(JApiStr(case))
 
